@@ -11,6 +11,7 @@ import ASV.Proofs.RefineIncomplete
 import ASV.Proofs.HitFilterMultiple
 import ASV.Proofs.HitFilterEquiv
 import ASV.Proofs.HitCallers
+import ASV.Proofs.HitFilterOrder
 namespace ASV.C13
 open ASV ASV.Refine ASV.HitFilter ASV.HitCallers
 
@@ -316,6 +317,21 @@ theorem multiple_profile_survives (hits : List FHit) (g : FHit) (hg : g ∈ hits
   · rcases List.mem_cons.mp hg with rfl | hg
     · exact Int.le_refl _
     · exact h2 g hg (by rw [hp, hk])
+
+/-- **the order of the reported hits** (round 7; was left to the correspondence): `filter_result_multiple`
+    returns its hits in the order of the gene's hit list … -/
+theorem multiple_keeps_list_order (hits : List FHit) : (filterMultiple hits).Sublist hits :=
+  filterMultiple_sublist hits
+
+/-- … so for distinct hits the returned list *is* the gene's list filtered by the membership that
+    `multiple_best_per_profile` characterises: list, order and all are determined -/
+theorem multiple_is_filter_of_input (hits : List FHit) (hd : hits.Nodup) :
+    filterMultiple hits = hits.filter fun x => (filterMultiple hits).contains x :=
+  sublist_eq_filter_mem (filterMultiple_sublist hits) hd
+
+/-- non-vacuity: profile 1's best hit stands before profile 0's in the list and stays there -/
+example : filterMultiple [⟨0, 1, 50, 60, 100⟩, ⟨1, 0, 0, 10, 50⟩, ⟨2, 0, 20, 30, 90⟩, ⟨3, 1, 0, 5, 100⟩] =
+    [⟨0, 1, 50, 60, 100⟩, ⟨2, 0, 20, 30, 90⟩] := by decide
 
 /-! ## `filter_results`: competition between the hits of one gene (distinct HSP objects) -/
 
